@@ -496,6 +496,13 @@ fn fvar_one_axis() -> Vec<u8> {
     w.done()
 }
 
+/// The synthetic variable font of subject 1 (GSUB 1.1 with FeatureVariations + a one-axis fvar), also a C01 seed: with
+/// capital letters mapped as well, so that the battery's Latin strings reach the lookups.
+pub fn synthetic_variable_gsub_font() -> Vec<u8> {
+    let cmap = [(b'a' as u32, 1u16), (b'b' as u32, 2), (b'c' as u32, 3), (b'x' as u32, 4), (0x25CC, 5), (b'A' as u32, 1), (b'B' as u32, 2)];
+    otmodel::tables::minimal_font(6, &cmap, &[(tag::GSUB, synthetic_gsub()), (tag::FVAR, fvar_one_axis())])
+}
+
 fn subjects(ctx: &Ctx) -> Vec<Subject> {
     let mut v = Vec::new();
     let dflt = FeatureMask::default().bits();
